@@ -6,7 +6,9 @@ import (
 	"math/rand"
 	"net"
 	"net/netip"
+	"reflect"
 	"sort"
+	"strings"
 	"time"
 
 	"github.com/uhppoted/uhppote-core/types"
@@ -688,13 +690,31 @@ func render(v any, err error) M {
 		return M{"string": "ok", "json": "ok"}
 	}
 	out := M{"string": "ok", "json": "ok"}
-	if p, _ := guard(func() { _ = fmt.Sprintf("%v", v) }); p {
+	// fmt recovers a panicking String method and prints "%!v(PANIC=String method: ...)": look for that,
+	// and call the value's own String method directly as well
+	if p, _ := guard(func() {
+		if s := fmt.Sprintf("%v", v); strings.Contains(s, "(PANIC=") {
+			panic(s)
+		}
+		if st, ok := v.(fmt.Stringer); ok && !isNilValue(v) {
+			_ = st.String()
+		}
+	}); p {
 		out["string"] = "panic"
 	}
 	if p, _ := guard(func() { json.Marshal(v) }); p {
 		out["json"] = "panic"
 	}
 	return out
+}
+
+func isNilValue(v any) bool {
+	rv := reflect.ValueOf(v)
+	switch rv.Kind() {
+	case reflect.Ptr, reflect.Map, reflect.Slice, reflect.Interface, reflect.Func, reflect.Chan:
+		return rv.IsNil()
+	}
+	return false
 }
 
 // doCall performs one API call on a stub-driver client and returns the flattened record.
